@@ -209,3 +209,57 @@ def lemma_transcription_shift(ri: Arr(Real, None, 2), rp: Arr(Real, None), ei: A
     P1, R1, F1, A1 = precision_recall_f1_overlap(ri, rp, ei, ep, on_tol, p_tol, ratio, min_tol, strict, 1.0)
     P2, R2, F2, A2 = precision_recall_f1_overlap(ri2, rp, ei2, ep, on_tol, p_tol, ratio, min_tol, strict, 1.0)
     ensures(P1 == P2, R1 == R2, F1 == F2, label='shift')
+
+
+# ----------------------------------------------------------------------------- transcription_velocity
+def valid_vel(ri, rp, rv, ei, ep, ev):
+    return (valid_notes(ri, rp, ei, ep) and length(rv) == length(rp) and length(ev) == length(ep)
+            and forall(0, length(rv), lambda i: rv[i] >= 0) and forall(0, length(ev), lambda i: ev[i] >= 0))
+
+
+@contract("mir_eval.transcription_velocity.validate", props="C14")
+def tv_validate(ref_intervals: Arr(Real, None, 2), ref_pitches: Arr(Real, None), ref_velocities: Arr(Real, None),
+                est_intervals: Arr(Real, None, 2), est_pitches: Arr(Real, None), est_velocities: Arr(Real, None)):
+    raises(ValueError, when=not valid_vel(ref_intervals, ref_pitches, ref_velocities, est_intervals, est_pitches, est_velocities), props="C14")
+
+
+@contract("mir_eval.transcription_velocity.match_notes", props="C05 C07")
+def tv_match_notes(ref_intervals: Arr(Real, None, 2), ref_pitches: Arr(Real, None), ref_velocities: Arr(Real, None),
+                   est_intervals: Arr(Real, None, 2), est_pitches: Arr(Real, None), est_velocities: Arr(Real, None),
+                   onset_tolerance: Real = 0.05, pitch_tolerance: Real = 50.0, offset_ratio: Opt(Real) = 0.2, offset_min_tolerance: Real = 0.05,
+                   strict: Bool = False, velocity_tolerance: Real = 0.1) -> Lst(Tup(Int, Int)):
+    requires(valid_vel(ref_intervals, ref_pitches, ref_velocities, est_intervals, est_pitches, est_velocities))
+    requires(length(ref_intervals) > 0, length(est_intervals) > 0)
+    n = length(ref_intervals)
+    m = length(est_intervals)
+    M = mm(n, m, note_rel(ref_intervals, ref_pitches, est_intervals, est_pitches, onset_tolerance, pitch_tolerance, offset_ratio, offset_min_tolerance, strict))
+    ensures(length(result) <= M, label='subset-size', props="C07")
+    ensures(0 <= length(result), length(result) <= n, length(result) <= m, label='pigeonhole', props="C05 C01")
+    ensures(forall(0, length(result), lambda k: 0 <= result[k][0] and result[k][0] < n and 0 <= result[k][1] and result[k][1] < m), label='pairs-in-range', props="C05")
+
+
+@contract("mir_eval.transcription_velocity.precision_recall_f1_overlap", props="C01 C04 C07 C14")
+def tv_prf(ref_intervals: Arr(Real, None, 2), ref_pitches: Arr(Real, None), ref_velocities: Arr(Real, None),
+           est_intervals: Arr(Real, None, 2), est_pitches: Arr(Real, None), est_velocities: Arr(Real, None),
+           onset_tolerance: Real = 0.05, pitch_tolerance: Real = 50.0, offset_ratio: Opt(Real) = 0.2, offset_min_tolerance: Real = 0.05,
+           strict: Bool = False, velocity_tolerance: Real = 0.1, beta: Real = 1.0) -> Tup(Real, Real, Real, Real):
+    requires(beta > 0)
+    raises(ValueError, when=not valid_vel(ref_intervals, ref_pitches, ref_velocities, est_intervals, est_pitches, est_velocities), props="C14")
+    P, R, F, A = result
+    n = length(ref_intervals)
+    m = length(est_intervals)
+    M = mm(n, m, note_rel(ref_intervals, ref_pitches, est_intervals, est_pitches, onset_tolerance, pitch_tolerance, offset_ratio, offset_min_tolerance, strict))
+    ensures(implies(n == 0 or m == 0, P == 0 and R == 0 and F == 0 and A == 0), label='empty', props="C04 C01")
+    ensures(implies(n > 0 and m > 0, 0 <= P * m and P * m <= M and P * m == R * n), label='hits-at-most-without-velocity', props="C07 C04")
+    ensures(F == F_beta(P, R, beta), label='F-def', props="C04")
+    ensures(0 <= P, P <= 1, 0 <= R, R <= 1, 0 <= F, F <= 1, A <= 1, label='range', props="C01")
+
+
+@lemma("C07")
+def lemma_velocity_never_raises_scores(ri: Arr(Real, None, 2), rp: Arr(Real, None), rv: Arr(Real, None), ei: Arr(Real, None, 2), ep: Arr(Real, None), ev: Arr(Real, None),
+                                       on_tol: Real, p_tol: Real, ratio: Opt(Real), min_tol: Real, strict: Bool, v_tol: Real):
+    """precision / recall / F with the velocity criterion never exceed those without it (the velocity test only removes matched pairs)"""
+    requires(valid_vel(ri, rp, rv, ei, ep, ev), on_tol >= 0, p_tol >= 0, min_tol >= 0, is_none(ratio) or val(ratio) > 0)
+    P1, R1, F1, A1 = tv_prf(ri, rp, rv, ei, ep, ev, on_tol, p_tol, ratio, min_tol, strict, v_tol, 1.0)
+    P2, R2, F2, A2 = precision_recall_f1_overlap(ri, rp, ei, ep, on_tol, p_tol, ratio, min_tol, strict, 1.0)
+    ensures(P1 <= P2, R1 <= R2, label='velocity<=plain')
